@@ -247,7 +247,9 @@ class Check:
             for ext in (".mli", ".ml"):
                 shutil.copy(os.path.join(gen, m + ext), bd)
                 srcs.append(m + ext)
-        shutil.copy(os.path.join(VERIF, "ocaml", name + ".ml"), bd)
+        drv = open(os.path.join(VERIF, "ocaml", name + ".ml")).read()
+        drv = drv.replace("(*#include conv*)", open(os.path.join(VERIF, "ocaml", "conv.inc")).read())
+        open(os.path.join(bd, name + ".ml"), "w").write(drv)
         srcs.append(name + ".ml")
         rc, o, e = sh(["ocamlfind", "ocamlopt", "-O3", "-w", "-a", "-package", "str", "-linkpkg"] + srcs + ["-o", exe], cwd=bd, timeout=900)
         if rc != 0:
